@@ -735,7 +735,15 @@ func (e *escaper) escapeTree(c context, node parse.Node, name string, line int) 
 	}
 	e.called[dname] = true
 	if out, ok := e.output[dname]; ok {
-		// Already escaped.
+		// Already escaped. The nodes that the analysis visited then count again, so that
+		// whether a template is within the budget does not depend on what was analysed
+		// before it.
+		if e.ns.steps += e.ns.cost[dname]; e.ns.steps > maxAnalysisSteps {
+			return context{
+				state: stateError,
+				err:   errorf(ErrOutputContext, node, line, "template is too deeply nested to be analysed: more than %d nodes visited", maxAnalysisSteps),
+			}, dname
+		}
 		return memoizedContext(out).after(c), dname
 	}
 	t := e.template(name)
@@ -792,10 +800,15 @@ func (e *escaper) escapeTree(c context, node parse.Node, name string, line int) 
 		}
 		e.ns.pristine[name] = t.Tree.Copy()
 	}
+	before := e.ns.steps
 	out := e.computeOutCtx(c, t)
 	// escapeTemplateBody only recorded an assumption; record the computed context, or
 	// the error, so that later callers do not rely on an assumption that did not hold.
 	e.output[dname] = memoize(c, out)
+	if e.ns.cost == nil {
+		e.ns.cost = map[string]int{}
+	}
+	e.ns.cost[dname] = e.ns.steps - before
 	return out, dname
 }
 
